@@ -53,7 +53,9 @@ func (db *DB) VerifySignature(ctx context.Context, blockCid string, pubKey crypt
 		return ErrMissingSignature
 	}
 
-	if db.documentACP.HasValue() {
+	// Collection-level commits (branchable collections) do not belong to a document,
+	// there is no document permission to check for them.
+	if db.documentACP.HasValue() && !block.Delta.IsCollection() {
 		docID := string(block.Delta.GetDocID())
 		collection, err := NewCollectionRetriever(db).RetrieveCollectionFromDocID(ctx, docID)
 		if err != nil {
